@@ -395,6 +395,13 @@ def assignment(draw, env, depth, quals_ok=True, allow_track=True):
     name = draw(st.sampled_from(["x", "y", "z", "w", "n1", "s1"]))
     prev = env.vars.get(name)
     rhs, typ = value_expr(draw, env, depth)
+    if getattr(env, "and_mode", True) and draw(st.integers(0, 7)) == 5:
+        # '@v = count.name(#h)': the running count of the value seen on this line (docs/functions/count.md),
+        # assigned on every line - unlike the bare match counter count()
+        wcols = env.col(["word", "flag", "int", "id"], dense=True)
+        if wcols:
+            i, c = draw(st.sampled_from(wcols))
+            rhs, typ = ["f", "count", [env.fresh("cn")], [["h", c["name"]]]], "N"
     if prev is not None and prev != typ:
         # keep variables mono-typed so later reads stay well-typed
         name = env.fresh("v")
@@ -461,6 +468,8 @@ def side_effect(draw, env, depth, bare=True):
     if k == "countx":
         nm = env.fresh("cn")
         if draw(st.booleans()):
+            # counts of True and of False: later components may read '@<name>.True' / '@<name>.False'
+            env.tracks = getattr(env, "tracks", set()) | {(nm, "True"), (nm, "False")}
             return ["f", "count", [nm], [expr_b(draw, env, 0)]]
         wcols = env.col(["word", "flag", "int", "id"], dense=True)
         i, c = draw(st.sampled_from(wcols))
